@@ -196,6 +196,11 @@ def in_process(sc, r):
 
 def run(sc):
     r = Result()
+    for mo in sc['mons']:
+        dn = mo['kind'].startswith('ct')
+        if not common.ref_defined([mo['ast']], dn, sc['signals'] if dn else sc['data'], sc['n']):
+            r.discarded = True
+            return r
     try:
         outs = in_process(sc, r)
     except M.ApiCrash as e:
